@@ -50,8 +50,9 @@ func evalFunctionCall(vm *r.VM, expr *syntax.FuncCallExpr) (r.Element, error) {
 		if err != nil {
 			return nil, err
 		}
-		// bind yield result
-		if err := vm.DeclareConstElement(ytag, resultVal); err != nil {
+		// bind yield result - like every other declaration the name holds its own copy of a
+		// list / dictionary / number (the callee may have handed out one of its inputs)
+		if err := vm.DeclareConstElement(ytag, value.DuplicateValue(resultVal)); err != nil {
 			return nil, err
 		}
 	}
